@@ -97,6 +97,8 @@ class ModelQuantumEngine:
         self.failing_jobs = set(failing_jobs)
         self.streams: List[Stream] = []
         self.open_failures = 0
+        self.unary_fault_spread = False          # at most one injected failure in a row per (rpc, target)
+        self._last_unary_failed: Dict = {}
         self.processed_then_failed: List = []    # unary RPCs whose effect took place but whose reply was a 5xx
         self.orphaned_request_iterators = 0
         self.clean_closes: List = []            # (epoch, message ids in flight) of streams the server closed with OK
@@ -397,9 +399,13 @@ class ModelQuantumEngine:
         self.unary_times[uid][3] = self.sim.now
         if (self.unary_fault_budget > 0 and not self.sim.fair and (self.enabled_faults.get("unary-5xx") or
                                                                     self.enabled_faults.get("unary-4xx"))
-                and self.sim.tape.chance(1, 3, "unary-fault?")):
+                and self.sim.tape.chance(1, 3, "unary-fault?")
+                and not (self.unary_fault_spread and self._last_unary_failed.get((name, _target(req))))):
             kinds = [k for k in ("unary-5xx", "unary-4xx") if self.enabled_faults.get(k)]
             kind = kinds[self.sim.tape.draw(len(kinds), "unary-fault-kind")]
+            if self.unary_fault_spread:
+                kind = "unary-5xx" if self.enabled_faults.get("unary-5xx") else kind
+            self._last_unary_failed[(name, _target(req))] = True
             self.unary_fault_budget -= 1
             self.ctx.fault(kind)
             if kind == "unary-5xx":
@@ -430,6 +436,7 @@ class ModelQuantumEngine:
             self.outage_failures += 1
             fut.set_exception(exc)
             return
+        self._last_unary_failed[(name, _target(req))] = False
         try:
             res = getattr(self, "_rpc_" + name)(req)
         except gexc.GoogleAPICallError as e:
